@@ -266,7 +266,7 @@ func (fx *FuncExec) evalReceiver(st *State, x ast.Expr, recvT types.Type, pos to
 func (fx *FuncExec) evalArgs(st *State, call *ast.CallExpr, sig *types.Signature) []Term {
 	np := sig.Params().Len()
 	var args []Term
-	if len(call.Args) == 1 && np > 1 {
+	if _, isTuple := argTupleType(fx, call).(*types.Tuple); len(call.Args) == 1 && np > 1 && isTuple {
 		// f(g()) with multi-value g
 		rs := fx.evalMulti(st, call.Args[0])
 		for i, r := range rs {
@@ -532,8 +532,13 @@ func (fx *FuncExec) evalBuiltin(st *State, call *ast.CallExpr, name string) []Te
 			es := fx.reg.SortOf(u.Elem())
 			comp := fx.reg.sliceComp(u.Elem())
 			ref := fx.alloc(st, "SRef", "make")
-			if fx.structValInfo(u.Elem()) != nil {
-				fx.unsupported(call.Pos(), "make of slice of struct values")
+			if si := fx.structValInfo(u.Elem()); si != nil {
+				// every element is its own fresh zero-valued struct object
+				mk := fx.freshStructFamily(st, si)
+				arr := fx.fresh("mkarr", "(Array Int "+es+")")
+				st.assume(fmt.Sprintf("(forall ((i Int)) (! (= (select %s i) (%s i)) :pattern ((select %s i))))", arr, mk, arr))
+				fx.setHq(st, comp, store(fx.H(st, comp), ref, arr))
+				return []Term{{S: "(mk_slice " + ref + " 0 " + n.S + ")", Sort: "Slice", T: t, Fresh: true}}
 			}
 			fx.setHq(st, comp, store(fx.H(st, comp), ref, fx.reg.ZeroArr("Int", es)))
 			return []Term{{S: "(mk_slice " + ref + " 0 " + n.S + ")", Sort: "Slice", T: t, Fresh: true}}
@@ -620,4 +625,36 @@ func sortedStrKeys(m map[string]string) []string {
 	}
 	sort.Strings(ks)
 	return ks
+}
+
+func argTupleType(fx *FuncExec, call *ast.CallExpr) types.Type {
+	if len(call.Args) != 1 {
+		return nil
+	}
+	return fx.typeOf(call.Args[0])
+}
+
+// freshStructFamily declares an injective family mk(i) of fresh, distinct,
+// zero-initialised struct objects (used for make([]Struct, n)).
+func (fx *FuncExec) freshStructFamily(st *State, si *StructInfo) string {
+	fx.nfresh++
+	mk := fmt.Sprintf("mkelem!%d", fx.nfresh)
+	fx.decls = append(fx.decls, fmt.Sprintf("(declare-fun %s (Int) %s)", mk, si.Sort))
+	oldAl := fx.H(st, si.Alloc)
+	newAl := fx.fresh(si.Alloc, fx.reg.compSort[si.Alloc])
+	st.vars[si.Alloc] = newAl
+	var zf []string
+	for _, f := range si.Fields {
+		if sub := fx.structValInfo(si.FieldT[f]); sub != nil {
+			inner := fx.freshStructFamily(st, sub)
+			zf = append(zf, eq(sel(fx.H(st, si.Comp[f]), "("+mk+" i)"), "("+inner+" i)"))
+			continue
+		}
+		zf = append(zf, eq(sel(fx.H(st, si.Comp[f]), "("+mk+" i)"), fx.reg.Zero(fx.reg.SortOf(si.FieldT[f]))))
+	}
+	st.assume(fmt.Sprintf("(forall ((i Int)) (! (and (not (= (%s i) null_%s)) (not (select %s (%s i))) (select %s (%s i)) %s) :pattern ((%s i))))",
+		mk, si.Sort, oldAl, mk, newAl, mk, and(zf...), mk))
+	st.assume(fmt.Sprintf("(forall ((i Int) (j Int)) (! (=> (= (%s i) (%s j)) (= i j)) :pattern ((%s i) (%s j))))", mk, mk, mk, mk))
+	st.assume(fmt.Sprintf("(forall ((r %s)) (! (=> (select %s r) (select %s r)) :pattern ((select %s r))))", si.Sort, oldAl, newAl, newAl))
+	return mk
 }
